@@ -11,15 +11,17 @@ F1 == <<"p", "f1.graphql">>   \* root: an operation and a fragment of its own
 F2 == <<"p", "f2.graphql">>
 F3 == <<"p", "q", "f3.graphql">>
 F4 == <<"p", "f4.graphql">>
-FileIds == {F1, F2, F3, F4}
-Frags(f) == CASE f = F1 -> <<"R">> [] f = F2 -> <<"A", "B">> [] f = F3 -> <<"C", "D">> [] f = F4 -> <<"E">>
+F5 == <<"p", "q", "f2.graphql">>   \* same file NAME as F2, beside F3: "./f2.graphql" means F2 in p/ and F5 in p/q/; it also has a fragment called A
+FileIds == {F1, F2, F3, F4, F5}
+Frags(f) == CASE f = F1 -> <<"R">> [] f = F2 -> <<"A", "B">> [] f = F3 -> <<"C", "D">> [] f = F4 -> <<"E">> [] f = F5 -> <<"A", "K">>
 Ops(f)   == IF f = F1 THEN <<"Q">> ELSE <<>>
 
 (* relative spellings of `to` as seen from the directory of `from` *)
 DirOf(f) == Front(f)
 Spellings(from, to) ==
   LET up == [i \in 1..(Len(DirOf(from)) - 1) |-> ".."]        \* climb to /p
-      direct == IF DirOf(from) = <<"p">> THEN <<".">> \o Tail(to) ELSE up \o Tail(to)
+      direct == IF DirOf(from) = DirOf(to) THEN <<".", to[Len(to)]>>          \* a sibling: the shortest spelling
+                ELSE IF DirOf(from) = <<"p">> THEN <<".">> \o Tail(to) ELSE up \o Tail(to)
   IN IF Reduced /\ to # F2 THEN {direct}
      ELSE {direct, <<".", "zz", "..">> \o (IF Head(direct) = "." THEN Tail(direct) ELSE direct)}
 
